@@ -433,6 +433,8 @@ func c05(w *core.World, r *core.Report) {
 	ruleOpenFileResetsChecksum(w, r)
 	r.Rule("R05.16", "after a restart the newest-segment marker is the last element of the sorted segment list", 1)
 	ruleNewestSegmentFromSortedList(w, r)
+	r.Rule("R06.8", "the disk cache re-reads its directory whenever a run id is (re)confirmed: the in-memory data set lists a snapshot from the first byte of its transfer, and only the re-read removes one whose transfer broke off (shared with C06; seed C05-14)", 2)
+	ruleCacheRefreshed(w, r)
 }
 
 func ruleCheckThenAcquire(w *core.World, r *core.Report) {
